@@ -35,6 +35,7 @@ ENC = {
     "float10/nan": ([10.0, 20.0, 30.0], NAN, float),
     "int/-1": ([0, 1, 2], -1, int),
     "int10/0": ([10, 20, 30], 0, int),
+    "int1/0": ([1, 2, 3], 0, int),  # the sentinel coincides with an encoded class index (0..K-1)
     "str/empty": (["a", "b", "c"], "", str),
     "str/nan": (["a", "b", "c"], "nan", str),
     "obj-num/None": ([0, 1, 2], None, object),
